@@ -26,6 +26,24 @@ Section Tables.
 
   Definition local_of (id : string) : string := local_name_of pr id.
 
+  (** the local name of a struct followed by its type arguments (S_A_B): the instantiations of a generic
+      struct are distinct declarations, in TypeScript and in Dart *)
+  Definition inst_name (id : string) : string :=
+    match find_type id (pr_types pr) with
+    | Some d => fold_left (fun acc a => acc ++ "_" ++ match a with
+                                                       | GNamed aid => local_name_of pr aid
+                                                       | GBasic k => match k with
+                                                                     | KBool => "bool" | KInt => "int" | KInt8 => "int8" | KInt16 => "int16" | KInt32 => "int32" | KInt64 => "int64"
+                                                                     | KUint => "uint" | KUint8 => "uint8" | KUint16 => "uint16" | KUint32 => "uint32" | KUint64 => "uint64"
+                                                                     | KFloat32 => "float32" | KFloat64 => "float64" | KString => "string" | _ => "?" end
+                                                       | _ => "?" end) (n_targs d) (n_name d)
+    | None => id
+    end.
+
+  (** the name of the Dart class of a struct node *)
+  Definition dart_class_name (n : nrec) : string :=
+    match nr_at n with GNamed id => title (inst_name id) | _ => "" end.
+
   (** the union is exported iff its Go name is *)
   Definition union_exported (id : string) : bool :=
     match find_type id (pr_types pr) with Some d => n_exported d | None => false end.
